@@ -1,6 +1,7 @@
 package main
 
 import (
+	"go/types"
 	"fmt"
 	"go/constant"
 	"go/token"
@@ -68,6 +69,8 @@ func annotationKeyOf(p *Prog, v ssa.Value, depth int) []string {
 }
 
 func runC19(c *Ctx) {
+	runC19Received(c)
+	runC19EnvUpsert(c)
 	runC19ConfigMapName(c)
 	p, fx := c.P, c.Fx
 	// ---- O1: annotation keys agree
@@ -333,6 +336,17 @@ func runC19(c *Ctx) {
 							visit(cal, d+1)
 						}
 					}
+					if mc, ok := in.(*ssa.MakeClosure); ok {
+						// a predicate handed to slices.DeleteFunc / ContainsFunc / IndexFunc that compares names
+						for _, cb := range mc.Fn.(*ssa.Function).Blocks {
+							for _, cin := range cb.Instrs {
+								if bo, ok := cin.(*ssa.BinOp); ok && (bo.Op.String() == "==" || bo.Op.String() == "!=") &&
+									(strings.HasSuffix(termOf(bo.X).String(), ".Name") || strings.HasSuffix(termOf(bo.Y).String(), ".Name")) {
+									hasCompareLoop = true
+								}
+							}
+						}
+					}
 					if bo, ok := in.(*ssa.BinOp); ok && (bo.Op.String() == "==" || bo.Op.String() == "!=") && loopHeaderOf(b) != nil {
 						if strings.HasSuffix(termOf(bo.X).String(), ".Name") || strings.HasSuffix(termOf(bo.Y).String(), ".Name") {
 							hasCompareLoop = true
@@ -347,6 +361,68 @@ func runC19(c *Ctx) {
 		visit(fn, 0)
 		c.Check(okUpsert, "O4", "DOM", funcKey(fn)+": appends only what is not already present", fn.Pos(), "lookup-by-name loop before append", "the mutation helper appends without checking for an existing entry: mutating an already mutated pod duplicates env vars / volumes (admission's mutation is not idempotent)")
 	}
+}
+
+// C19-O4 (ext.): the env var the admission mutator sets is the ONLY entry of that name. Duplicate env names are
+// legal in a pod spec and the kubelet lets the last one win, so a helper that rewrites container.Env must look at
+// every existing entry: the loop that compares entry names has no exit other than exhaustion (a "replace the first
+// match and return" leaves a later user-supplied NVIDIA_VISIBLE_DEVICES / GPU_PORTION in force).
+func runC19EnvUpsert(c *Ctx) {
+	p := c.P
+	n := 0
+	for _, fn := range p.FuncsIn("pkg/binder/common") {
+		if isTestdataOrMock(fn) || fn.Parent() != nil {
+			continue
+		}
+		writesEnv := len(instrsIn(fn, func(in ssa.Instruction) bool {
+			st, ok := in.(*ssa.Store)
+			if !ok {
+				return false
+			}
+			t := termOf(st.Addr)
+			return t.lastField() == "Env" || (t.Op == "index" && t.Args[0].lastField() == "Env")
+		})) > 0
+		if !writesEnv {
+			continue
+		}
+		for _, in := range instrsIn(fn, func(in ssa.Instruction) bool {
+			cc, ok := in.(ssa.CallInstruction)
+			return ok && calleeOf(cc) != nil && funcPkgPath(calleeOf(cc)) == "slices" && strings.HasPrefix(calleeOf(cc).Name(), "DeleteFunc")
+		}) {
+			n++
+			c.Hold("O4", "MPT", funcKey(fn)+": every existing env entry of that name is replaced", instrPos(in), "slices.DeleteFunc removes every match")
+		}
+		seenH := map[*ssa.BasicBlock]bool{}
+		for _, in := range instrsIn(fn, func(in ssa.Instruction) bool {
+			bo, ok := in.(*ssa.BinOp)
+			if !ok || (bo.Op != token.EQL && bo.Op != token.NEQ) {
+				return false
+			}
+			return strings.HasSuffix(termOf(bo.X).String(), ".Name") || strings.HasSuffix(termOf(bo.Y).String(), ".Name")
+		}) {
+			h := loopHeaderOf(in.Block())
+			if h == nil || seenH[h] {
+				continue
+			}
+			seenH[h] = true
+			n++
+			loop := naturalLoop(h)
+			early := token.NoPos
+			for b := range loop {
+				if b == h {
+					continue
+				}
+				for _, s := range b.Succs {
+					if !loop[s] {
+						early = instrPos(b.Instrs[len(b.Instrs)-1])
+					}
+				}
+			}
+			c.Check(early == token.NoPos, "O4", "MPT", funcKey(fn)+": every existing env entry of that name is replaced", instrPos(in), "the name-comparison loop over container.Env runs to exhaustion",
+				"the helper stops at the first env entry with the same name ("+p.Pos(early)+"): a later duplicate entry (legal, and the one the kubelet uses) keeps the user's value, e.g. NVIDIA_VISIBLE_DEVICES=all on a pod that was given one fraction of one device")
+		}
+	}
+	c.Floor("O4", "MPT env rewrite loops", n, 1)
 }
 
 func instrPosOfFirst(forms map[string][]parseSite) (pos token.Pos) {
@@ -381,4 +457,89 @@ func runC19ConfigMapName(c *Ctx) {
 		c.Check(ok, "O5", "DOM", funcKey(fn)+": a new name prefix is generated only when the pod carries none", instrPos(in), "behind !found", "the config-map name prefix recorded in the pod's annotation can be discarded and regenerated: every further run of the mutating webhook then adds references under a new prefix while the old envFrom/volume stay, and the pod ends up requiring a config map nobody creates")
 	}
 	c.Floor("O5", "DOM prefix generations", n, 1)
+}
+
+// C19-O6 (PROV): what the binder is told the pod received is what the scheduler accounted. The scheduler charges a
+// GPU-sharing pod with its AcceptedResource — for a gpu-memory request the fraction only exists there, computed from
+// the GPU memory of the chosen node — and the binder writes BindRequest.Spec.ReceivedGPU into the pod's environment.
+// Count and Portion of ReceivedGPU must therefore be read from AcceptedResource, not from the raw request.
+func runC19Received(c *Ctx) {
+	p := c.P
+	fn := c.Anchor("O6", "pkg/scheduler/cache", "SchedulerCache", "createBindRequest")
+	if fn == nil {
+		return
+	}
+	n := 0
+	for _, h := range p.deepFind(fn, func(in ssa.Instruction) bool {
+		st, ok := in.(*ssa.Store)
+		if !ok {
+			return false
+		}
+		fa, ok := st.Addr.(*ssa.FieldAddr)
+		if !ok {
+			return false
+		}
+		pt, ok := fa.X.Type().Underlying().(*types.Pointer)
+		if !ok || !strings.HasSuffix(typeKey(pt.Elem()), "ReceivedGPU") {
+			return false
+		}
+		_, isStruct := pt.Elem().Underlying().(*types.Struct)
+		return isStruct
+	}, 2) {
+		st := h.In.(*ssa.Store)
+		fa := st.Addr.(*ssa.FieldAddr)
+		name := fa.X.Type().Underlying().(*types.Pointer).Elem().Underlying().(*types.Struct).Field(fa.Field).Name()
+		n++
+		v := liftTerm(termOf(st.Val), h.Chain)
+		hasAcc, hasReq := false, false
+		for _, src := range valueSources(st.Val, 4) {
+			t := liftTerm(termOf(src), h.Chain)
+			if t.contains(func(x *Term) bool { return x.Op == "field" && x.Name == "AcceptedResource" }) {
+				hasAcc = true
+			}
+			if t.contains(func(x *Term) bool { return x.Op == "field" && x.Name == "ResReq" }) {
+				hasReq = true
+			}
+		}
+		ok := hasAcc && !hasReq
+		c.Check(ok, "O6", "PROV", funcKey(fn)+": ReceivedGPU."+name+" is what the scheduler accounted (AcceptedResource)", instrPos(h.In), trunc(v.String(), 140),
+			"BindRequest.Spec.ReceivedGPU."+name+" is not taken from the pod's AcceptedResource ("+trunc(v.String(), 140)+"): for a gpu-memory request the binder is told portion 0 while the scheduler accounted a fraction of the device")
+	}
+	c.Floor("O6", "PROV ReceivedGPU fields", n, 2)
+}
+
+// valueSources: v and the values it is computed from through calls (arguments, including the elements of a variadic
+// argument list), conversions and interface boxing, to the given depth.
+func valueSources(v ssa.Value, depth int) []ssa.Value {
+	out := []ssa.Value{v}
+	if depth == 0 {
+		return out
+	}
+	switch x := v.(type) {
+	case *ssa.Call:
+		for _, a := range x.Call.Args {
+			out = append(out, valueSources(a, depth-1)...)
+		}
+	case *ssa.MakeInterface:
+		out = append(out, valueSources(x.X, depth-1)...)
+	case *ssa.Convert:
+		out = append(out, valueSources(x.X, depth-1)...)
+	case *ssa.ChangeType:
+		out = append(out, valueSources(x.X, depth-1)...)
+	case *ssa.Slice:
+		if a, ok := x.X.(*ssa.Alloc); ok {
+			for _, r := range *a.Referrers() {
+				ia, ok := r.(*ssa.IndexAddr)
+				if !ok {
+					continue
+				}
+				for _, r2 := range *ia.Referrers() {
+					if st, ok := r2.(*ssa.Store); ok && st.Addr == ssa.Value(ia) {
+						out = append(out, valueSources(st.Val, depth-1)...)
+					}
+				}
+			}
+		}
+	}
+	return out
 }
